@@ -78,10 +78,11 @@ def drive_parallel(pid, tier, seed, hashseeds, scratch, extra_env=None):
         env = child_env(h)
         env.update(extra_env or {})
         cmd = [PY, "-m", "cgv.drive", pid, "--tier", tier, "--seed", str(seed), "--hashseed", str(h),
-               "--scratch", scratch, "--out", out]
+               "--scratch", scratch, "--out", out, "--slice", "%d/%d" % (hashseeds.index(h), len(hashseeds))]
         procs.append((h, out, subprocess.Popen(cmd, cwd=HARNESS, env=env, stdout=subprocess.PIPE,
                                                stderr=subprocess.STDOUT, text=True)))
     events = []
+    stats = {}
     for h, out, p in procs:
         log, _ = p.communicate()
         if p.returncode != 0:
@@ -90,7 +91,10 @@ def drive_parallel(pid, tier, seed, hashseeds, scratch, extra_env=None):
             for line in f:
                 if line.strip():
                     events.append(json.loads(line))
-    return events
+        if os.path.exists(out + ".stats.json"):
+            for k, v in json.load(open(out + ".stats.json")).items():
+                stats[k] = stats.get(k, 0) + v
+    return events, stats
 
 
 def run_check(pid, tier, seed, replay=None):
@@ -110,6 +114,12 @@ def run_check(pid, tier, seed, replay=None):
         for fam in cfg.get("families", []):
             from . import gen
             gen.family(fam, scratch)
+        emit_report = []
+        for j in ([] if replay else cfg.get("emit", [])):
+            out = os.path.join(scratch, "emit_%s.ndjson" % j["name"])
+            r = tlc.emit(j["module"], j["cfg"], out, env=j.get("env"), workers=j.get("workers", 8), timeout=j.get("timeout", 900), scratch=scratch)
+            emit_report.append({"name": j["name"], "module": j["module"], "cfg": j["cfg"], "transitions_emitted": r["lines"],
+                                "bad_lines": r["bad_lines"], "distinct": r["distinct"], "generated": r["generated"], "wall_s": round(r["wall"], 1)})
         # ---- 3. drive the real code
         if replay:
             with open(replay) as f:
@@ -117,9 +127,9 @@ def run_check(pid, tier, seed, replay=None):
             case_file = os.path.join(scratch, "replay_case.json")
             with open(case_file, "w") as f:
                 json.dump(rp["case"], f)
-            events = drive_parallel(pid, tier, seed, [rp["hashseed"]], scratch, {"CGV_REPLAY_CASE": case_file})
+            events, dstats = drive_parallel(pid, tier, seed, [rp["hashseed"]], scratch, {"CGV_REPLAY_CASE": case_file})
         else:
-            events = drive_parallel(pid, tier, seed, cfg["hashseeds"], scratch)
+            events, dstats = drive_parallel(pid, tier, seed, cfg["hashseeds"], scratch)
         # ---- 4. unique events, negative controls
         uniq = {}
         for e in events:
@@ -142,8 +152,8 @@ def run_check(pid, tier, seed, replay=None):
         verdicts, jstats = tlc.judge(uevents + ctl, shards=cfg.get("shards", 8), timeout=cfg.get("judge_timeout", 1500),
                                      scratch=scratch)
         # ---- 6. MC results
-        states = jstats["distinct"]
-        transitions = jstats["generated"]
+        states = jstats["distinct"] + sum(r["distinct"] for r in emit_report)
+        transitions = jstats["generated"] + sum(r["generated"] for r in emit_report)
         mc_report = []
         for j, fut in mc_futs:
             r = fut.result()
@@ -171,8 +181,9 @@ def run_check(pid, tier, seed, replay=None):
         byid = {e["id"]: e for e in uevents}
         viol = []
         known_hit = {}
+        drift = 0
         for c in ctl:
-            if not verdicts.get(c["id"]):
+            if not [f for f in verdicts.get(c["id"], []) if not f.startswith("DRIFT:")]:
                 rc = max(rc, 2)
                 lines.append("MACHINERY: negative control accepted (corruption %s of event %s)" % (c.get("corruption"), c["negctl_of"]))
         for eid, failed in verdicts.items():
@@ -184,6 +195,12 @@ def run_check(pid, tier, seed, replay=None):
                 rc = max(rc, 2)
                 lines.append("MACHINERY: event %s unusable: %s" % (eid, mach))
                 continue
+            dr = [f for f in failed if f.startswith("DRIFT:")]
+            if dr:
+                drift += 1
+                if drift <= 5:
+                    lines.append("MODEL-DRIFT property=%s event=%s %s (the code differs from the as-built model; not a violation)" % (pid, eid, dr[:3]))
+            failed = [f for f in failed if not f.startswith("DRIFT:")]
             unlisted = []
             for cl in failed:
                 k = match_known(known, pid, ev, cl)
@@ -227,8 +244,9 @@ def run_check(pid, tier, seed, replay=None):
             "coverage": {
                 "states": states,
                 "transitions": transitions,
-                "traces_validated_against_impl": len(uevents),
-                "evaluations": len(events) + sum(r["distinct"] for r in mc_report),
+                "traces_validated_against_impl": len(uevents) + int(dstats.get("transitions_replayed", 0)),
+                "evaluations": len(events) + sum(r["distinct"] for r in mc_report) + int(dstats.get("transitions_replayed", 0)),
+                "spec_to_code_replay": {"emitted": emit_report, "driver_stats": dstats},
                 "distinct_nontrivial": len(nontriv),
                 "rule": mod.RULE,
                 "samples": samples or [{"note": "no events"}],
@@ -244,6 +262,7 @@ def run_check(pid, tier, seed, replay=None):
                 "sources": _count(uevents, "src"),
                 "judge": {k: (round(v, 1) if isinstance(v, float) else v) for k, v in jstats.items()},
                 "known_findings_seen": sorted(known_hit),
+                "model_drift_events": drift,
             },
             "assumptions": ASSUMPTIONS + getattr(mod, "ASSUMPTIONS", []),
             "wall_s": round(time.time() - t0, 1),
